@@ -70,4 +70,32 @@ def textLength : Bool → Nat → Str → Nat
     else if c = '}' then textLength (sp && d > 1) (d - 1) r
     else (if sp then 0 else 1) + textLength sp d r
 
+/-! ### separators of `split_tex_string` -/
+
+/-- a concatenation of the units of `BIBTEX_SPACE_RE`: backslash-space, a white-space
+character, or a tie -/
+def spaceUnits : Str → Bool
+  | [] => true
+  | c :: r =>
+    if c = '\\' then
+      match r with
+      | ' ' :: r' => spaceUnits r'
+      | _ => false
+    else (isWs c || c = '~') && spaceUnits r
+
+/-- a match of the default separator: a non-empty run of white-space units -/
+def isSpaceSep (m : Str) : Bool := m ≠ [] && spaceUnits m
+
+/-- a match of the name-list separator `' [Aa][Nn][Dd] '` -/
+def isAndSep : Str → Bool
+  | [' ', a, n, d, ' '] => (a = 'a' || a = 'A') && (n = 'n' || n = 'N') && (d = 'd' || d = 'D')
+  | _ => false
+
+/-- `SplitsTo isSep s parts`: `s` is the parts in order with one separator match between
+consecutive parts, i.e. `parts` is obtained from `s` by dropping separators only. -/
+inductive SplitsTo (isSep : Str → Bool) : Str → List Str → Prop
+  | one (p : Str) : SplitsTo isSep p [p]
+  | cons (p m rest : Str) (ps : List Str) : isSep m = true → SplitsTo isSep rest ps →
+      SplitsTo isSep (p ++ m ++ rest) (p :: ps)
+
 end Pybtex.Spec
